@@ -168,18 +168,30 @@ def run(model, col, tier):
             ob.rule = "R14.6"
             col.obligations.append(ob)
     vc = lv.own_method("v_CallExpression")
-    args = find_assign(vc, "args")
-    good = bool(args) and isinstance(args[0], ast.ListComp) and unparse(args[0].generators[0].iter) == vc.args.args[1].arg and not args[0].generators[0].ifs \
-        and last_attr(args[0].elt) in ("v_Visit", "v_Generic")
+    from ..sem import visits_each_in_order, expand_helpers, local_env, rtext
+
+    np_ = vc.args.args[1].arg
+    good = visits_each_in_order(model, lv, vc, {np_, f"{np_}.GetArguments()", f"{np_}.children"})
     col.check(good, "R14.6", f"{LOWER}::v_CallExpression one operand per argument", "args = [visit(arg) for arg in call]: one operand per call argument, in order",
               "the call instruction does not get exactly one operand per call argument", LOWER, vc)
     mk = [c for c in ast.walk(vc) if isinstance(c, ast.Call) and last_attr(c) == "CallInstruction"]
-    col.check(bool(mk) and len(mk[0].args) == 3 and unparse(mk[0].args[2]) == "args", "R14.6", f"{LOWER}::v_CallExpression passes the operands", "CallInstruction(type, name, args)", None, LOWER, vc)
+    a3 = mk[0].args[2] if mk and len(mk[0].args) == 3 else None
+    a3_ok = isinstance(a3, ast.ListComp) or (isinstance(a3, ast.Name) and bool(find_assign(vc, a3.id)))
+    col.check(a3_ok, "R14.6", f"{LOWER}::v_CallExpression passes the operands", "CallInstruction(type, name, args)", None, LOWER, vc)
     ci_init = model.cls(IR, "CallInstruction").own_method("__init__")
     dflt = [d for d in ci_init.args.defaults if isinstance(d, (ast.List, ast.Dict))]
     if dflt:
         col.info("CallInstruction.__init__ has a mutable default `arguments=[]`; v_CallExpression always passes a fresh list (see C18 R18.2)")
     iter_ = model.cls("nsl/ast/__init__.py", "Expression").own_method("__iter__")
     col.check("self.children.__iter__()" in unparse(iter_), "R14.6", "nsl/ast/__init__.py::Expression.__iter__", "iterating a call expression yields its argument expressions", None, "nsl/ast/__init__.py", iter_)
+    # a call's target must exist in the *linked* program: imports recorded, loaded (also imports of imports), merged (= R16.1-R16.4)
+    from . import c16
+
+    sub = Collector("C16")
+    c16.run(model, sub, "quick")
+    for ob in sub.obligations:
+        if ob.rule in ("R16.1", "R16.2", "R16.3", "R16.4"):
+            ob.rule = "R14.6"
+            col.obligations.append(ob)
     lk = model.cls(IR, "Linker").own_method("AddModule")
     col.check("self.__functions[k] = v" in unparse(lk), "R14.6", f"{IR}::Linker.AddModule merges functions by name", "the linked program maps IR names to functions", None, IR, lk)
